@@ -10,7 +10,7 @@
 //                                                 "prio pgn src dst len hex" or "-"
 //       q                                         dump of the reassembly slots
 // Oracle: reference reassembler written from the property statement, keyed by (PGN, source); see refStep(); the slot budget
-// ("as many concurrent senders as slots") is time-aware: unfinished messages older than 100 ms do not count, see needPlace().
+// ("as many concurrent senders as slots") is time-aware and independent of the receiver's slot policy, see needPlace().
 #include "node.h"
 #include "spec_tables.h"   // frozen NMEA 2000 lists: SPEC_FAST_PACKET[], SPEC_SINGLE_FRAME[]
 #include <algorithm>
@@ -73,28 +73,33 @@ static bool specKnown(unsigned long pgn) {
 }
 static bool isTPpgn(unsigned long pgn) { return pgn == 60416UL || pgn == 60160UL; }
 
-struct Partial { unsigned prio, dst, seq, next, L; std::vector<unsigned char> bytes; uint64_t t0; /* generator clock at its first frame */ };
+struct Partial { unsigned prio, dst, seq, next, L; std::vector<unsigned char> bytes; uint64_t t0; /* generator clock at its first frame */ bool placed, risk; };
 typedef std::pair<unsigned long, unsigned> Key;
 static std::map<Key, Partial> ref;
 // TP sessions opened by TP.CM RTS/BAM (no data packets follow in this harness): they deliver nothing, but each holds a place
 static std::map<std::pair<unsigned, unsigned>, uint64_t> tpHeld;   // (source, destination) -> generator clock of the announce
 // case-level facts about the INPUT (used only to name the failing input class)
-static bool overloaded = false;        // more unfinished messages than slots at some point: only safety is required afterwards
+static bool caseTight = false;         // at some point not every unfinished message fitted into the slots
 static bool caseOtherDst = false;      // a first frame superseded an unfinished message of its PGN+source that had another destination
 static bool caseSupersede = false;     // a first frame superseded an unfinished message of its PGN+source (same destination)
 static long caseDeliv = 0, caseFPDeliv = 0, caseInterleaved = 0, caseDiscard = 0, caseFrames = 0;
 static std::string caseKind = "replay";
 
-struct RefOut { bool deliv; Deliv d; bool oversize; };
+struct RefOut { bool deliv; Deliv d; bool oversize; bool demand; };
 
-// Slot budget of "up to as many concurrent senders as there are reassembly slots", time-aware ("slot-reuse timing
-// (100 ms) at any clock value"): an unfinished message whose first frame is more than 100 ms old (generator clock) does
-// not count. A new message of key k needs a place. If fewer than nSlots other messages are unfinished there is one. If
-// all places are taken and the OLDEST unfinished message is more than 100 ms old it has to give way (it is dropped
-// from the reference as well); otherwise the receiver is over-subscribed and only safety is required from here on.
-// Soundness margins: exactly 100 ms, two equally old candidates, or an age near 2^31 ms (beyond the comparison range of
-// a 32-bit millisecond clock) are treated as over-subscription (no delivery is demanded), never as a failure.
-static void needPlace(const std::map<std::pair<unsigned long, unsigned>, Partial>::iterator *self);
+// Which of the owed deliveries are DEMANDED ("up to as many concurrent senders as there are reassembly slots", "slot-reuse
+// timing (100 ms) at any clock value"). The reference reassembler `ref` is the pure statement (it never drops a message for
+// lack of room); it decides what MAY be delivered (anything else is extra/corrupt). What MUST be delivered is decided per
+// message, without assuming which slot policy the receiver follows where the property leaves it open (whether an
+// undeliverable announcement holds a place, which of several old messages gives way):
+//  * a place can be held only by an unfinished message of the reference or by a TP session (pessimistic: all of them count);
+//  * `placed`: when the message starts, the others + 1 fit into the slots, or - when they do not - fewer than nSlots of the
+//    others are younger than 100 ms (margin: age <= 101 counts as young; no age near 2^31 ms, which a 32-bit clock cannot
+//    compare), so that a free place or one that has timed out exists under every permitted policy;
+//  * `risk`: while the message was unfinished, another message needed a place when not everything fitted and this one was
+//    already >= 99 ms old: it may legitimately have given way.
+// A completed message is demanded iff placed and not at risk.
+static bool needPlace(const std::map<std::pair<unsigned long, unsigned>, Partial>::iterator *self);
 
 static void refDecode(unsigned long id, unsigned &prio, unsigned long &pgn, unsigned &src, unsigned &dst) {
   prio = (id >> 26) & 7; unsigned dp = (id >> 24) & 1, pf = (id >> 16) & 0xff, ps = (id >> 8) & 0xff; src = id & 0xff;
@@ -102,31 +107,26 @@ static void refDecode(unsigned long id, unsigned &prio, unsigned long &pgn, unsi
   else { pgn = ((unsigned long)dp << 16) | ((unsigned long)pf << 8) | ps; dst = 255; }
 }
 
-static void needPlace(const std::map<Key, Partial>::iterator *self) {
+static bool needPlace(const std::map<Key, Partial>::iterator *self) {
   size_t others = ref.size() - (self ? 1 : 0) + tpHeld.size();
-  if (others + 1 <= nSlots) return;
-  if (overloaded) return;
-  // every place is taken by another unfinished message / TP session
-  uint64_t oldest = UINT64_MAX; size_t nOldest = 0; bool farApart = false, victimTP = false;
-  auto victim = ref.end(); auto victimT = tpHeld.end();
+  if (others + 1 <= nSlots) return true;              // room even if every unfinished message still holds a place
+  caseTight = true; C.count("budget_tight");
+  bool farApart = false; size_t young = 0;
   for (auto it = ref.begin(); it != ref.end(); ++it) {
     if (self && it == *self) continue;
-    uint64_t t0 = it->second.t0;
-    if (g_now - t0 >= 2147483648ULL - 1000) farApart = true;
-    if (t0 < oldest) { oldest = t0; nOldest = 1; victim = it; victimTP = false; } else if (t0 == oldest) nOldest++;
+    uint64_t age = g_now - it->second.t0;
+    if (age >= 2147483648ULL - 1000) farApart = true;
+    if (age <= 101) young++;
+    if (age >= 99) it->second.risk = true;
   }
   for (auto it = tpHeld.begin(); it != tpHeld.end(); ++it) {
-    uint64_t t0 = it->second;
-    if (g_now - t0 >= 2147483648ULL - 1000) farApart = true;
-    if (t0 < oldest) { oldest = t0; nOldest = 1; victimT = it; victimTP = true; } else if (t0 == oldest) nOldest++;
+    uint64_t age = g_now - it->second;
+    if (age >= 2147483648ULL - 1000) farApart = true;
+    if (age <= 101) young++;
   }
-  uint64_t age = g_now - oldest;
-  if (!farApart && nOldest == 1 && age >= 101) {   // > 100 ms idle: does not count
-    if (victimTP) tpHeld.erase(victimT); else ref.erase(victim);
-    C.count("ref_stale_gave_way"); return;
-  }
-  if (age >= 100) C.count("budget_boundary_or_tie_waived");
-  overloaded = true;
+  bool ok = !farApart && young + 1 <= nSlots;
+  if (ok) C.count("budget_stale_must_give_way");
+  return ok;
 }
 
 // TP.CM RTS/BAM: delivers nothing; a new announce replaces the session of the same source and destination; the session
@@ -142,27 +142,26 @@ static void refTPOpen(unsigned src, unsigned dst, const unsigned char *b) {
 
 // b = the 8 bytes the receiver sees, len = DLC
 static RefOut refStep(unsigned long id, unsigned len, const unsigned char *b) {
-  RefOut o; o.deliv = false; o.oversize = false;
+  RefOut o; o.deliv = false; o.oversize = false; o.demand = false;
   unsigned prio, src, dst; unsigned long pgn; refDecode(id, prio, pgn, src, dst);
   if (pgn == 60416UL && (b[0] == 16 || b[0] == 32)) { refTPOpen(src, dst, b); return o; }   // TP session announce
   if (isTPpgn(pgn)) return o;                       // other ISO-TP frames: never generated here (C10)
   if (mode == 1 && !specKnown(pgn)) return o;       // node handles only known messages
   Key k(pgn, src);
   if (!specFast(pgn)) {                             // single frame: delivered with the DLC as length
-    needPlace(nullptr);
+    o.demand = needPlace(nullptr);
     o.deliv = true; o.d.prio = prio; o.d.pgn = pgn; o.d.src = src; o.d.dst = dst; o.d.len = (int)len; o.d.data.assign(b, b + len);
     return o;
   }
   bool first = (b[0] & 0x1f) == 0;
   if (first) {
     auto it = ref.find(k);
-    needPlace(it != ref.end() ? &it : nullptr);
-    it = ref.find(k);
+    bool placed = needPlace(it != ref.end() ? &it : nullptr);
     if (it != ref.end()) { if (it->second.dst != dst) caseOtherDst = true; else caseSupersede = true; caseDiscard++; }   // superseded
-    Partial p; p.prio = prio; p.dst = dst; p.seq = b[0] >> 5; p.next = 1; p.L = b[1]; p.t0 = g_now;
+    Partial p; p.prio = prio; p.dst = dst; p.seq = b[0] >> 5; p.next = 1; p.L = b[1]; p.t0 = g_now; p.placed = placed; p.risk = false;
     for (unsigned j = 2; j < len; j++) p.bytes.push_back(b[j]);
     if (p.L <= 223 && p.bytes.size() >= p.L) {
-      ref.erase(k); o.deliv = true; o.d.prio = prio; o.d.pgn = pgn; o.d.src = src; o.d.dst = dst; o.d.len = (int)p.L;
+      ref.erase(k); o.deliv = true; o.demand = placed; o.d.prio = prio; o.d.pgn = pgn; o.d.src = src; o.d.dst = dst; o.d.len = (int)p.L;
       o.d.data.assign(p.bytes.begin(), p.bytes.begin() + p.L);
     } else { if (ref.size() > 0 && it == ref.end()) caseInterleaved++; ref[k] = p; }
     return o;
@@ -174,7 +173,7 @@ static RefOut refStep(unsigned long id, unsigned len, const unsigned char *b) {
     for (unsigned j = 1; j < len; j++) p.bytes.push_back(b[j]);
     p.next++;
     if (p.L <= 223 && p.bytes.size() >= p.L) {
-      o.deliv = true; o.d.prio = p.prio; o.d.pgn = pgn; o.d.src = src; o.d.dst = p.dst; o.d.len = (int)p.L;
+      o.deliv = true; o.demand = p.placed && !p.risk; o.d.prio = p.prio; o.d.pgn = pgn; o.d.src = src; o.d.dst = p.dst; o.d.len = (int)p.L;
       o.d.data.assign(p.bytes.begin(), p.bytes.begin() + p.L); ref.erase(it);
     }
   } else { ref.erase(it); caseDiscard++; }          // missing / out-of-sequence frame: discarded as a whole
@@ -195,7 +194,7 @@ static void oracle(const RefOut &r, unsigned long id) {
     return;
   }
   if (got.empty() && r.deliv) {
-    if (overloaded) { C.count("missing_under_overload"); return; }   // beyond the slot count only safety is required
+    if (!r.demand) { C.count("missing_not_demanded"); return; }   // beyond the slot count / after 100 ms only safety is required
     C.fail(!ic.empty() ? "C02:" + ic : std::string("C02:missing:") + cls, "owed %s, nothing delivered", delivStr(r.d).c_str());
     return;
   }
@@ -212,7 +211,7 @@ static void endCase() {
   if (!N) return;
   C.cases++;
   C.count("case_" + caseKind);
-  if (overloaded) C.count("cases_overloaded");
+  if (caseTight) C.count("cases_tight");
   if (caseFPDeliv > 0 && caseInterleaved > 0 && caseDiscard > 0) C.nontrivial(caseDesc);
   caseDesc.clear();
 }
@@ -237,7 +236,7 @@ static void exec(const std::string &line) {
     if (!N->isOpen()) C.fail("harness:not-open", "node did not open");
     if (nSlots == 0) nSlots = N->slots();   // library default: the property is parametric in the slot count
     if (N->slots() != nSlots) C.fail("harness:slots", "MaxN2kCANMsgs=%u wanted %u", N->slots(), nSlots);
-    ref.clear(); tpHeld.clear(); overloaded = caseOtherDst = caseSupersede = false; caseDeliv = caseFPDeliv = caseInterleaved = caseDiscard = caseFrames = 0;
+    ref.clear(); tpHeld.clear(); caseTight = caseOtherDst = caseSupersede = false; caseDeliv = caseFPDeliv = caseInterleaved = caseDiscard = caseFrames = 0;
     got.clear();
     C.out("ok"); return;
   }
